@@ -69,6 +69,19 @@ Fixpoint run_seq (p : params) (st : bstate) (t : Z) (cs : list Z) : list (Z * Z)
   | c :: r => let (st', w) := take p st t c in (t + w, c) :: run_seq p st' (t + w) r
   end.
 
+(* NOT what the valve does - the limited variant the library also offers, as seeded change C19_r2m2 used
+   it: rxWait/txWait calling WaitMaxDuration(count, maxWait) and ignoring the result.  A request whose
+   wait would exceed maxWait takes no token and is released at once (the caller carries on). *)
+Fixpoint run_capped (p : params) (st : bstate) (maxWait : Z) (reqs : list (Z * Z)) : list (Z * Z) :=
+  match reqs with
+  | [] => []
+  | (t, c) :: r =>
+      match take_max p st t c (Some maxWait) with
+      | (st', Some w) => (t + w, c) :: run_capped p st' maxWait r
+      | (st', None) => (t, c) :: run_capped p st' maxWait r
+      end
+  end.
+
 (* the same sender pausing gap_i before its i-th request (gap 0 everywhere = run_seq) *)
 Fixpoint run_gaps (p : params) (st : bstate) (t : Z) (gcs : list (Z * Z)) : list (Z * Z) :=
   match gcs with
@@ -81,7 +94,11 @@ Definition available (p : params) (st : bstate) (now : Z) : bstate * Z :=
   let st1 := adjust p st (tick_of p now) in (st1, avail st1).
 
 (* operations of the differential test against the library with an injected clock *)
-Inductive bop := BAdvance (d : Z) | BTake (c : Z) | BTakeMax (c m : Z) | BAvailable.
+(* BWait / BWaitMax: Wait(c) / WaitMaxDuration(c, m) on a bucket whose clock is the injected one: the
+   library sleeps the duration take returned ON THAT CLOCK (ideal sleep: now advances by exactly the
+   wait); WaitMaxDuration returns false at once, WITHOUT having taken any token, when the wait would
+   exceed m *)
+Inductive bop := BAdvance (d : Z) | BTake (c : Z) | BTakeMax (c m : Z) | BAvailable | BWait (c : Z) | BWaitMax (c m : Z).
 Inductive bres := RWait (w : Z) | RRefused | RAvail (a : Z) | RNone.
 
 Fixpoint bops (p : params) (st : bstate) (now : Z) (ops : list bop) : list bres :=
@@ -95,6 +112,12 @@ Fixpoint bops (p : params) (st : bstate) (now : Z) (ops : list bop) : list bres 
       | (st', None) => RRefused :: bops p st' now r
       end
   | BAvailable :: r => let (st', a) := available p st now in RAvail a :: bops p st' now r
+  | BWait c :: r => let (st', w) := take p st now c in RWait w :: bops p st' (now + w) r
+  | BWaitMax c m :: r =>
+      match take_max p st now c (Some m) with
+      | (st', Some w) => RWait w :: bops p st' (now + w) r
+      | (st', None) => RRefused :: bops p st' now r
+      end
   end.
 
 (* ------------------------------------------------------------ NewBucketWithRate *)
